@@ -391,8 +391,12 @@ func init() {
 	add("C09", "K-JSONQUOTE")
 	add("C12", "K-JSONQUOTE")
 	add("C14", "A3")
-	registerRule(&RuleDef{ID: "S-CONNFLAG", Min: 4, Doc: "rpcClient == nil implies !connected: every statement dropping the connection clears connected in the same straight-line code; only connect() sets it", Run: ruleSCONNFLAG})
+	registerRule(&RuleDef{ID: "S-CONNFLAG", Min: 2, Doc: "rpcClient == nil implies !connected: every statement dropping the connection clears connected in the same straight-line code; only connect() sets it", Run: ruleSCONNFLAG})
 	add("C16", "S-CONNFLAG")
+	registerRule(&RuleDef{ID: "S-KEEPKIND", Min: 0, Doc: "a projection helper of the notification filters (*ovsdb.Row to *ovsdb.Row) returns nil only for a nil row, so the kind of a row update survives the projection", Run: ruleSKEEPKIND})
+	add("C10", "S-KEEPKIND")
+	add("C07", "S-KEEPKIND")
+	add("C01", "S-KEEPKIND")
 	add("C18", "DEFER-DISARM")
 	registerRule(&RuleDef{ID: "ERR-USE-CODEC", Min: 40, Doc: "in the wire codec and the mapper an error that is tested and set is used or ends the function (three listed exceptions)", Run: ruleERRUSECODEC})
 	add("C09", "ERR-USE-CODEC")
